@@ -9,6 +9,7 @@ open Drand.Driver.DkgD
 open Drand.Driver.DkgRunD
 open Drand.Driver.HandlerD
 open Drand.Driver.HashD
+open Drand.Driver.NetD
 open Drand.Driver.RouteD
 open Drand.Driver.SecrecyD
 open Drand.Driver.StoreD
